@@ -455,6 +455,15 @@ class FTPProcessorSession(BaseProcessorSession):
 
             _logger.debug('symlink {} -> {}', symlink_path, link_target)
 
+            if link_target is None:
+                # A machine listing (MLSD) does not say where a link points.
+                _logger.warning(
+                    _('Not creating symbolic link {symlink_path}: '
+                      'the listing does not name its target.'),
+                    symlink_path=symlink_path
+                )
+                return
+
             if os.path.basename(link_name) != link_name or \
                     link_name in ('', '.', '..'):
                 _logger.warning(
